@@ -98,9 +98,14 @@ theorem postauth_drained (s : Script) (hidle : s.clientEnd = .idle) (status : St
   | errReplayServer => simp [hs, Status.toString] at hc; rcases hst with h | h <;> (rw [h] at hc; simp at hc)
   | errReplayClient => simp [hs, Status.toString] at hc; rcases hst with h | h <;> (rw [h] at hc; simp at hc)
 
-/-- **wiring**: every authentication error takes the absorb branch; the handshake timeout is the
-    documented 59 s (generated facts). -/
-theorem wiring : Gen.Wiring.tcpAuthFailureIsAbsorbed = true ∧ Gen.tcpReadTimeoutNs = 59000000000 := by decide
+/-- **wiring**: the handshake timeout is the documented 59 s (generated constant).  That every authentication error
+    takes the absorb branch is proved about the translated `handleConnection` (`code_unauthenticated_is_absorbed`). -/
+theorem wiring : Gen.tcpReadTimeoutNs = 59000000000 := by decide
+
+/-- **probe_drain_is_unbounded**: `absorbProbe` — not translated, its byte counter is bumped behind its back by the
+    counting connection — drains with exactly one `io.Copy(io.Discard, conn)` on the connection it was given: no cap, no
+    limiting wrapper, no close, no deadline change (generated fact, robust to renaming the parameter). -/
+theorem probe_drain_is_unbounded : Gen.Wiring.tcpProbeDrainIsTheWholeConnection = true := by decide
 
 
 /-- **code_drain_result**: the translated `drainErrToString` (service/tcp.go) — the drain result reported with every probe —
